@@ -9,7 +9,8 @@ LEVEL = "proof"
 ALPHA = [0x20, 0x2e, 0x31, 0x41, 0x61, 0x62, 0x66, 0x69, 0x301, 0x308, 0x5d0, 0x5d1, 0x5b4, 0x627, 0x628, 0x644, 0x64e,
          0x915, 0x94d, 0x937, 0x93f, 0xe01, 0xe33, 0xe48, 0x1100, 0x1161, 0xac00, 0x200c, 0x200d, 0xfe0f, 0x3042,
          0x16a0, 0x1f600, 0x10a00]
-SCRIPTS = ["Latn", "Arab", "Hebr", "Deva", "Thai", "Runr", "Zyyy", "Hang", "Grek", "Zzzz"]
+ALPHA += [c for f in _life.FAMILIES.values() for c in f["bases"] + f["marks"] if c not in ALPHA] + [0x25cc]
+SCRIPTS = ["Latn", "Arab", "Hebr", "Deva", "Thai", "Runr", "Zyyy", "Hang", "Grek", "Zzzz", "Syrc"]
 LANGS = ["en", "ar", "sr", "x-hbot-41424320", "zh-Hant", "TR"]
 FLAGS = [0, 1, 2, 3, 4, 8, 0x10, 0x40, 0xC3, 0xFF]
 FEATS = ["-", "6b65726e:0:0:4294967295", "6c696761:0:0:4294967295", "73733031:1:0:4294967295",
@@ -161,6 +162,58 @@ def lifecycle_lines(r, shim, n):
         if r.chance(1, 300):
             ops = ["shape -", "clear", "pushn 61 17000"] + ops
         lines.append(head(f, T, D) + " ; " + " ; ".join(ops))
+    # earlier uses that leave every kind of residue (an in-place GPOS pass leaves the cursor at the end, both contexts,
+    # properties, level, not-found glyph), then clear() and a residue-sensitive request: every field is read back after
+    # every call and compared with the model (whose pipeline body is the identity: after clear() nothing of it may show)
+    rf = _life.residue_font()
+    cg = _life.corpus_gpos_cases(shim, corpus.load())
+    cg = r.shuffle(cg)[:max(n // 12, 1)] if cg else []
+    T2, D2 = extra_tables(shim, sorted({ord(ch) for _, text in cg for ch in text} - set(ALPHA)), T, D)
+    for i in range(n // 3):
+        ops = _life.residue_use(r)
+        f = rf
+        if cg and i % 4 == 3:
+            f, text = cg[(i // 4) % len(cg)]
+            ops = ["push " + _life.hx([ord(ch) for ch in text]), f"flags {r.choice(FLAGS)}", r.choice(["shape -", "plan -"])]
+        req, _ = _life.sensitive_request(r, _life.SENSITIVE[i % len(_life.SENSITIVE)])
+        ops += ["clear"] + req
+        if r.chance(2, 3):
+            ops += [r.choice(["shape -", "plan -"]), "clear"]
+        used = {int(x, 16) for o in ops if o.split()[0] in ("push", "add", "pushn") for x in o.split()[1].split(",") if x != "-"}
+        lines.append(head(f, {c: t for c, t in T2.items() if c in used}, D2) + " ; " + " ; ".join(ops))
+    return lines
+
+
+def extra_tables(shim, chars, T, D):
+    """T / D extended by the strong scripts of further characters (same public-api probe as unicode_tables)"""
+    T2, D2 = dict(T), dict(D)
+    o = vlib.run_lines(shim, [f"lcprop c {c:x}" for c in chars], nproc=1)
+    for c, rep in zip(chars, o):
+        tag = int(rep.split()[0])
+        if tag:
+            T2[c] = tag
+    need = sorted({t for t in T2.values() if t not in D2})
+    o = vlib.run_lines(shim, ["lcprop s " + tag.to_bytes(4, "big").decode("latin1") for tag in need], nproc=1)
+    for t, rep in zip(need, o):
+        D2[t] = int(rep.split()[1])
+    return T2, D2
+
+
+def clear_probe_lines(r, n, scripts_tags):
+    """`lcclear`: hb_buffer_t::clear() on a bare buffer whose EVERY field is drawn (hook clear_probe) vs Life.clear"""
+    lines = []
+    for _ in range(n):
+        k = r.below(7)
+        il = k + r.below(4)
+        recs = ",".join(f"{r.choice(ALPHA)}:{r.below(40)}" for _ in range(k)) or "-"
+        ctxs = [",".join(f"{r.choice(ALPHA):x}" for _ in range(r.below(6))) or "-" for _ in range(2)]
+        lang = "x" + r.choice(LANGS).lower().encode().hex() if r.chance(2, 3) else "-"
+        lines.append(
+            f"lcclear L={r.below(3)} F={r.choice(FLAGS)} M={r.choice([16384, 0x3FFFFFFF, 100, 64 * 300])} "
+            f"O={r.choice([0x1FFFFFFF, 16384, 0, 77, 1024 * 300])} h={r.below(2)} s={r.below(2)} p={r.below(2)} ok={r.below(2)} "
+            f"i={r.below(il + 3)} n={k} o={r.below(9)} sc={r.choice([0, 1, 2, 5, 0x20, 0xff, 0x1000000])} se={r.below(256)} "
+            f"il={il} pl={r.below(9)} D={r.below(5)} S={r.choice(['-'] + scripts_tags)} G={lang} pre={ctxs[0]} post={ctxs[1]} "
+            f"sf={r.below(2)} nf={r.choice(['-', '0', '3', '70000'])} inv=- I={recs}")
     return lines
 
 
@@ -480,6 +533,9 @@ def run(ctx):
     inventory.check(ctx)
     r = ctx.rng("lifecycle")
     ctx.correspond("lifecycle", lines=lifecycle_lines(r, shim, ctx.budget(3000, 100000)), classify=classify, canon=strip_out)
+    _, _, canon = unicode_tables(shim)
+    ctx.correspond("clear-probe", lines=clear_probe_lines(ctx.rng("clearprobe"), ctx.budget(3000, 60000),
+                                                          [str(canon[s_]) for s_ in canon_scripts(canon)]))
     F = pick_fonts(ctx.rng("rand"), 0)[0]
     ctx.correspond("rand", lines=[f"lcrand {F} {n}" for n in (0, 1, 5, 64, 1000)])
     recycle_search(ctx, shim, ctx.rng("recycle"), ctx.budget(1500, 40000))
